@@ -1,7 +1,7 @@
 (** The sender-side theorems of C01 in their final form, over the observable frame log. *)
 From Coq Require Import List ZArith Bool Lia.
 From V Require Import Gen.Params Lib.Hex Wire.Varint SendStream.Model SendStream.ProofsBase SendStream.ProofsInv
-  SendStream.ProofsCov SendStream.ProofsOut SendStream.ProofsFin SendStream.ProofsCnt.
+  SendStream.ProofsCov SendStream.ProofsOut SendStream.ProofsFin SendStream.ProofsCnt SendStream.ProofsDone.
 Import ListNotations.
 Open Scope Z_scope.
 
@@ -87,6 +87,20 @@ Proof.
   unfold cnt_stream, cnt_reset. pose proof (zlen_nonneg (outstanding (run_state s0 ops))).
   pose proof (zlen_nonneg (filter (fun r => r_rel r =? ro (run_state s0 ops)) (outReset (run_state s0 ops)))).
   destruct (_ && _); lia.
+Qed.
+
+(* onStreamCompleted is called exactly once per stream, and it HAS been called whenever nothing is in
+   flight, queued or buffered and the FIN was sent (or the reset is known to the application) *)
+Theorem sender_completion_exactly_once :
+  late s = false -> budgets_ok ops ->
+  done_calls (snd (run s0 ops)) = b2z (completed s) /\
+  (shutdown s = false -> all_done s -> completed s = true).
+Proof.
+  intros HL HB. split.
+  - rewrite run_count. unfold cz. fold s. unfold s0, init. ssimp. cbn. lia.
+  - intros HS. unfold s in *. rewrite run_fst in *.
+    apply (run_InvD ops s0 (init_Inv _ _ _ _) (init_InvC _ _ _ _) eq_refl); auto.
+    intros (_ & _ & _ & _ & [X|[X _]]); unfold s0, init in X; ssimp; congruence.
 Qed.
 
 Lemma reset_none_late : resetErr s = None -> late s = false.
